@@ -716,6 +716,34 @@ def rule_columns(ctx, f):
                   muts[0]["span"] if muts else b["span"], detail="no insert / extend / remove on the first trailer")
 
 
+def rule_startxref(ctx, f):
+    ctx.rule("C02-G5", "the newest section is found from the LAST `startxref` of the file: the backward search for the keyword starts at the end of the buffer and nothing "
+             "moves the cursor in between (a search for another marker first can land in front of the newest revision's `startxref`)")
+    b = f.body("backend::Backend::locate_xref_offset")
+    if b is None:
+        ctx.lost("C02-G5", "backend::Backend::locate_xref_offset")
+        return
+    cfg = CFG(b)
+    moves = [(bi, t) for bi, t in F.calls(b) if "Lexer" in F.callee_name(t) and t["arg_tys"] and t["arg_tys"][0]["s"].startswith("&mut") and last_seg(F.callee_name(t)) != "new"]
+    bfl = Flow(b)
+
+    def needle(t):
+        out = set()
+        for a in t["args"][1:]:
+            if F.const_bytes(a):
+                out.add(F.const_bytes(a))
+            elif F.op_local(a) is not None:
+                out |= {F.const_bytes(["const", x[1]]) for x in bfl.origins(F.op_local(a)) if x[0] == "const" and isinstance(x[1], dict) and "bytes" in x[1]}
+        return out
+    sx = [(bi, t) for bi, t in moves if last_seg(F.callee_name(t)) == "seek_substr_back" and "startxref" in needle(t)]
+    if not ctx.floor("C02-G5", len(sx), 1, "backward search for `startxref`"):
+        return
+    before = sorted({last_seg(F.callee_name(t)) for bi, t in moves if cfg.dominates(bi, sx[0][0]) and bi != sx[0][0]})
+    ends = [t for bi, t in moves if last_seg(F.callee_name(t)) == "set_pos_from_end" and F.const_int(t["args"][1]) == 0] if moves else []
+    ctx.check(before == ["set_pos_from_end"] and bool(ends), "C02-G5", "locate_xref_offset#from-the-end", "before the search for `startxref` the cursor is moved by %s (expected: "
+              "set_pos_from_end(0) only): the search may stop at the `startxref` of an older revision" % before, sx[0][1]["span"], detail="set_pos_from_end(0); seek_substr_back(b\"startxref\")")
+
+
 def rule_initial(ctx, f):
     ctx.rule("C02-TABLE-init", "a new table consists of Invalid slots - the one kind every section entry may overwrite (C02-TABLE); a slot that starts as Free or Raw "
              "would win against entries of the same generation")
@@ -743,6 +771,7 @@ def run(ctx):
     ctx.count("config", 1)
     rule_table(ctx, f)
     rule_initial(ctx, f)
+    rule_startxref(ctx, f)
     rule_walk(ctx, f)
     rule_typebytes(ctx, f)
     rule_lookup(ctx, f)
